@@ -28,6 +28,8 @@ ConfOf(e) ==
    \* (the plant, for formulas about what an analysis must find: the fan turns iff pwm > theta, its register keeps multiples of quant and 255)
    theta |-> [f \in FanIds(e.fans) |-> FanOf(e.fans, f).theta],
    quant |-> [f \in FanIds(e.fans) |-> FanOf(e.fans, f).quant],
+   \* how the register treats a written value: "floor" (multiples of quant, 255 stays), "ceil" (next multiple, capped at 255), "scale" (v*100/255)
+   qmode |-> [f \in FanIds(e.fans) |-> IF "qmode" \in DOMAIN FanOf(e.fans, f) THEN FanOf(e.fans, f).qmode ELSE "floor"],
    cfgStart |-> [f \in FanIds(e.fans) |-> FanOf(e.fans, f).cfgStart]]
 
 \* state after a "Begin" event (a process start); newTrace: the database history starts afresh
@@ -195,7 +197,13 @@ C15_DiscardedStays ==
 \* C13 on a real analysis: the start PWM that the initialization sequence derives (reported by the "Attached" hook) is the
 \* lowest value the device supports at which the plant turns - the lowest MEASURED value with a non-zero RPM
 LevelsOf(q) == LET qq == IF q < 1 THEN 1 ELSE q IN {k * qq : k \in 0..(254 \div qq)} \cup {255}
-ExpectedStart(f) == LET S == {v \in LevelsOf(cf.quant[f]) : v > cf.theta[f]} IN CHOOSE v \in S : \A w \in S : v <= w
+\* the value the device holds after `v` was written (the plant of the harness)
+DeviceOf(f, v) == LET q == IF cf.quant[f] < 1 THEN 1 ELSE cf.quant[f] IN
+  CASE cf.qmode[f] = "scale" -> (v * 100) \div 255
+    [] cf.qmode[f] = "ceil"  -> IF v <= 0 THEN 0 ELSE LET w == ((v + q - 1) \div q) * q IN IF w < 255 THEN w ELSE 255
+    [] OTHER -> IF v >= 255 THEN 255 ELSE (v \div q) * q
+\* the lowest REQUEST at which the plant turns (limits are request values: what the controller asks the fan for)
+ExpectedStart(f) == LET S == {v \in 0..255 : DeviceOf(f, v) > cf.theta[f]} IN CHOOSE v \in S : \A w \in S : v <= w
 C13_AnalysedLimits ==
   [][(l <= N /\ Trace[l].ev = "Attached" /\ Trace[l].fan \in cf.fans) =>
        LET f == Trace[l].fan IN
